@@ -110,10 +110,14 @@ func lcStmt(b string) string {
 }
 
 // lcProgram renders the lazily chosen behaviours of all requests of a history as one VCL program.
-func lcProgram(b lcBehaviour, backend string, decorate func(string) string) string {
-	var sb strings.Builder
+// The same behaviour is written in one of several equivalent ways (directly, inside nested blocks, through a
+// called subroutine that returns the action) chosen from the seed: the specification's prediction does not
+// depend on it, the interpreter's state propagation paths (block / if / call statement) differ.
+func lcProgram(b lcBehaviour, backend string, style func(k int) int) string {
+	var sb, helpers strings.Builder
 	sb.WriteString(backend)
 	sb.WriteString("ratecounter rc {}\n")
+	k := 0
 	for _, s := range lcSubs {
 		fmt.Fprintf(&sb, "sub vcl_%s {\n  log \"%s\";\n", s, s)
 		if s == "hit" {
@@ -127,13 +131,28 @@ func lcProgram(b lcBehaviour, backend string, decorate func(string) string) stri
 		for n, r := range b.Reqs {
 			for _, c := range r.Prog {
 				if c.Sub == s && c.Beh != "none" {
-					fmt.Fprintf(&sb, "  if (req.http.X-Req == \"%d\" && req.restarts == %d) { %s }\n", n+1, c.At, lcStmt(c.Beh))
+					k++
+					st := lcStmt(c.Beh)
+					cond := fmt.Sprintf("req.http.X-Req == \"%d\" && req.restarts == %d", n+1, c.At)
+					switch style(k) {
+					case 1: // nested blocks
+						fmt.Fprintf(&sb, "  if (req.http.X-Req == \"%d\") { if (req.restarts == %d) { { %s } } else { log \"other\"; } }\n", n+1, c.At, st)
+					case 2: // through a called subroutine (not for the variants that write scope-specific variables)
+						if c.Beh == "expire" || c.Beh == "ttl0" || c.Beh == "uncacheable" {
+							fmt.Fprintf(&sb, "  if (%s) { %s }\n", cond, st)
+						} else {
+							fmt.Fprintf(&helpers, "sub helper_%d { %s }\n", k, st)
+							fmt.Fprintf(&sb, "  if (%s) { call helper_%d; }\n", cond, k)
+						}
+					default:
+						fmt.Fprintf(&sb, "  if (%s) { %s }\n", cond, st)
+					}
 				}
 			}
 		}
 		sb.WriteString("}\n")
 	}
-	return sb.String()
+	return helpers.String() + sb.String()
 }
 
 type silentDebugger struct{ interpreter.DefaultDebugger }
@@ -208,7 +227,9 @@ func c06Replay(args []string) int {
 	fs := flag.NewFlagSet("c06replay", flag.ExitOnError)
 	tracePath := fs.String("traces", "", "file to write observed traces to (ndjson)")
 	prefix := fs.String("prefix", "b", "id prefix")
+	plain := fs.Bool("plain", false, "render every behaviour directly (no style variation)")
 	fs.Parse(args) // nolint:errcheck
+	seed := hx.Seed()
 
 	server, backend := lcBackend()
 	defer server.Close()
@@ -242,7 +263,12 @@ func c06Replay(args []string) int {
 		}
 		n++
 		id := fmt.Sprintf("%s%d", *prefix, n)
-		vcl := lcProgram(b, backend, nil)
+		vcl := lcProgram(b, backend, func(k int) int {
+			if *plain {
+				return 0
+			}
+			return int((seed*31 + int64(n)*17 + int64(k)*7) % 3)
+		})
 		ip := interpreter.New(context.WithResolver(resolver.NewStaticResolver("main", vcl)))
 		ip.Debugger = silentDebugger{}
 		res := caseResult{ID: id, Input: b}
